@@ -110,6 +110,12 @@ bool Stats::startSocket() {
   }
   ::memset(&serv_addr_, '\0', sizeof(serv_addr_));
   serv_addr_.sun_family = AF_UNIX;
+  if (stats_socket_path_.size() >= sizeof(serv_addr_.sun_path)) {
+    OLOG << "Stats socket path too long (" << stats_socket_path_.size()
+         << " bytes): " << stats_socket_path_;
+    ::close(sockfd_);
+    return false;
+  }
   ::strcpy(serv_addr_.sun_path, stats_socket_path_.c_str());
   if (::unlink(serv_addr_.sun_path) < 0 && errno != ENOENT) {
     OLOG << "Pre-unlinking of socket path failed. " << serv_addr_.sun_path
